@@ -68,6 +68,7 @@ fn main() {
             debug_sql(&p);
             return;
         }
+        "C01" => mon::c01::run_monitor(&p),
         "C03" => mon::c03::run(&p),
         "C04" => mon::c04::run(&p),
         "C05" => mon::c05::run(&p),
